@@ -85,7 +85,7 @@ def replay(pid, ctx, phases_all):
     print("translator obligations:", "hold" if tr["ok"] else "FAIL: " + "; ".join(conclib.obligation_failures(tr))[:600])
     if r.get("lin_input"):
         res, _ = conclib.run_concrun(r["lin_input"], d, 5_000_000)
-        print("stored history against the sequential model:", res[0] if res else "(checker failed)")
+        print("stored history (as recorded) against the sequential model:", res[0][:300] if res else "(checker failed)")
     phases = [p for p in r.get("phases", phases_all) if p in phases_all] or phases_all
     if r.get("phase") in phases_all:
         phases = [r["phase"]]
@@ -100,8 +100,9 @@ def replay(pid, ctx, phases_all):
         if viol:
             hits += 1
     print("reproduced in %d of %d runs (schedules differ from run to run)" % (hits, n))
-    bad = hits > 0 or not tr["ok"] or (r.get("lin_input") and res and not res[0].startswith("OK"))
-    return 1 if bad else 0
+    # the stored history is evidence about the tree it was recorded on; the verdict of a replay is
+    # about the current tree: do the obligations hold and does the workload still produce a violation
+    return 1 if (hits > 0 or not tr["ok"]) else 0
 
 
 def run(ctx, pid, phases, title, extra_tb, rule):
@@ -133,12 +134,12 @@ def run(ctx, pid, phases, title, extra_tb, rule):
             viol.append(dict(kind="hash-model-mismatch", **diff))
         if tr["skel"] is not None:
             skip = sorted(tr["known"])
-            budget = 4_000_000 if thorough else 1_000_000
+            budget = 1_500_000 if thorough else 600_000
             runs = [("q", ctx.seed, "quick", dict())]
             if not thorough:
                 runs.append(("q2", ctx.seed + 7919, "quick", dict(threads=3, nops=120)))
             else:
-                runs += [("t%d" % i, ctx.seed + 101 * i, "thorough", dict()) for i in range(1, 4)]
+                runs += [("t%d" % i, ctx.seed + 101 * i, "thorough", dict()) for i in range(1, 9)]
                 runs += [("race", ctx.seed + 13, "thorough", dict(race=True)),
                          ("tcp", ctx.seed + 17, "quick", dict(tcp=True)),
                          ("many", ctx.seed + 19, "quick", dict(threads=16, nops=40))]
@@ -196,6 +197,7 @@ def run(ctx, pid, phases, title, extra_tb, rule):
     cov["checker_cmd"] += " && translator/ -> Gen/LockSkel.v && coqc Gen/Obligations.v"
     cov.update(dict(
         evaluations=stats["ops_total"],
+        traces_validated_against_impl=len(stats["phases"]),
         distinct_nontrivial=len(stats["nontrivial"]),
         ops_in_decided_components=stats["ops_checked"],
         rule=rule,
